@@ -28,9 +28,11 @@ def run(ctx):
     reps = 4 if thorough else 1
     combos = [c + ("none",) for c in combos] + [(pl, "keep", od, ru) for pl in ("root", "helper", "kept", "datafn")
                                                  for od in ("before", "after") for ru in ("called_before", "kept_before")]
+    combos = [c + (1,) for c in combos] + [(pl, pr, od, "none", nl) for pl in ("root", "helper", "kept", "datafn")
+                                             for pr in ("datafn", "keep") for od in ("before", "earlier") for nl in (2, 3)]
     for rep in range(reps):
-        for (placement, producer, order, reuse) in combos:
-            w, meta = progs.gen_load_world(rng, placement, producer, order, reuse)
+        for (placement, producer, order, reuse, nloads) in combos:
+            w, meta = progs.gen_load_world(rng, placement, producer, order, reuse, nloads=nloads)
             store_kind = ["memory", "local", "local_lru"][(rep + len(placement) + len(order)) % 3]
             entry = {"kind": "eval", "fun": "f0"} if rng.random() < 0.5 else {"kind": "keep", "fun": "f0", "path": "/top"}
             prod_entry = {"kind": "direct", "fun": "fp"} if producer == "datafn" else {"kind": "keep", "fun": "fp", "path": "/prod"}
@@ -121,7 +123,7 @@ def run(ctx):
                                                           "impl": [a, rx["value"], rx["log"]], "model": [b, m["value"], m["log"]],
                                                           "source": progs.render_world(wx, "extmod")})
                                 break
-                if rep == 0 and (placement, producer, order, reuse) == ("kept", "datafn", "before", "none"):
+                if rep == 0 and (placement, producer, order, reuse, nloads) == ("kept", "datafn", "before", "none", 1):
                     res.sample({"case": meta, "source": case["source"], "first_value": r["value"]})
     pipeline.close_ref()
     res.rule = ("all 40 combinations placement {root, helper, kept, datafn, loaded value fed to a keep} x producer {datafn, keep} x order {before, after, earlier, never}, plus 16 where the producing function already appeared in the evaluation (called / kept at another path) "
